@@ -241,6 +241,30 @@ func checkC18(p *Program, r *Report) {
 					}
 				case ssa.CallInstruction:
 					cc := x.Common()
+					// the address of a field of a shared object handed to a callee that may write through it
+					for ai, a := range cc.Args {
+						av := a
+						if mi, ok := av.(*ssa.MakeInterface); ok {
+							av = mi.X
+						}
+						fa, ok := av.(*ssa.FieldAddr)
+						if !ok {
+							continue
+						}
+						why := sharedStore(fa, shared, fn)
+						if why == "" {
+							continue
+						}
+						if sf := cc.StaticCallee(); sf != nil {
+							if _, ro := readOnlyMethods[sf.String()]; ro && ai == 0 {
+								continue
+							}
+							if strings.HasPrefix(sf.String(), "(*sync.Mutex).") || strings.HasPrefix(sf.String(), "(*sync.RWMutex).") || strings.HasPrefix(sf.String(), "sync/atomic.") || strings.HasPrefix(sf.String(), "(*sync/atomic.") {
+								continue // synchronisation primitives are meant to be shared
+							}
+						}
+						problems = append(problems, fmt.Sprintf("%s: the address of %s is handed to a call that may write through it (state kept in the shared object between calls)", p.pos(x.Pos()), why))
+					}
 					f := cc.StaticCallee()
 					if f == nil || f.Pkg == nil || isModulePkg(f.Pkg.Pkg) || f.Signature.Recv() == nil || len(cc.Args) == 0 {
 						continue
@@ -678,5 +702,58 @@ func poolHygiene(p *Program, r *Report, rule string) {
 	}
 	if n == 0 {
 		r.OKf(rule, "no-pool", token.NoPos, "the module takes nothing from a sync.Pool")
+	}
+}
+
+// receiverReadOnly: the methods of the given codec type only *read* their receiver: every address
+// of a receiver field is used by loads alone - never stored through, never handed to a call. A
+// codec that keeps scratch state between calls makes one encoding depend on the previous one.
+func receiverReadOnly(p *Program, r *Report, rule, pkg, typeName string) {
+	tn := p.LookupType(pkg, typeName)
+	named := tn.Type().(*types.Named)
+	n := 0
+	for _, fn := range p.ModuleFuncs() {
+		recv := fn.Signature.Recv()
+		if recv == nil || namedOf(recv.Type()) != named || len(fn.Blocks) == 0 || len(fn.Params) == 0 {
+			continue
+		}
+		if strings.HasPrefix(fn.Name(), "Set") {
+			// configuration setters (frame codec: SetBodyCompressor) are the documented way to change
+			// a codec and are not called by the encode/decode paths
+			r.OKf(rule, fnKey(fn), fn.Pos(), "configuration setter: exempt")
+			continue
+		}
+		n++
+		rp := fn.Params[0]
+		bad := ""
+		for _, b := range fn.Blocks {
+			for _, ins := range b.Instrs {
+				fa, ok := ins.(*ssa.FieldAddr)
+				if !ok || fa.X != ssa.Value(rp) {
+					continue
+				}
+				fname := fieldName(fa.X.Type(), fa.Field)
+				for _, ref := range *fa.Referrers() {
+					switch x := ref.(type) {
+					case *ssa.UnOp, *ssa.DebugRef:
+					case *ssa.Store:
+						if x.Addr == ssa.Value(fa) {
+							bad = fmt.Sprintf("%s: the method assigns its receiver's field %s", p.pos(x.Pos()), fname)
+						}
+					default:
+						bad = fmt.Sprintf("%s: the address of the receiver's field %s is used by %T (handed on or written through): the codec keeps state between calls", p.pos(ref.Pos()), fname, ref)
+					}
+				}
+			}
+		}
+		key := fnKey(fn)
+		if bad != "" {
+			r.Fail(rule, key, fn.Pos(), "%s", bad)
+		} else {
+			r.OKf(rule, key, fn.Pos(), "receiver fields are only read")
+		}
+	}
+	if n == 0 {
+		r.Fail(rule, pkg+"."+typeName, tn.Pos(), "no methods found")
 	}
 }
